@@ -148,6 +148,11 @@ def run(model: RepoModel, rep, tier: str):
     rep.rule("C05.R12", "no vacuous condition decides a binding: in the resolver and the scope / import builders no `E != a or E != b` "
                         "(always true) or `E == a and E == b` (always false) guards a branch", 3)
     generic2.check_vacuous_conditions(model, rep, "C05.R12", ["core/resolver.py", SH, IH, "basics/stmt_def_use_analysis.py"])
+    from .. import generic4
+    rep.rule("C05.R14", "a relative import is searched in the right package: n leading dots climb n-1 packages above the importing file's own package (dot counter, guarded level assignment and the range of the climbing loop evaluated for 1..5 dots)", 1)
+    generic4.check_relative_import_levels(model, rep, "C05.R14")
+    rep.rule("C05.R15", "every name of `global a, b` / `nonlocal a, b` is lowered: the row is emitted inside a loop over the statement's children", 2)
+    generic4.check_listed_names_all_lowered(model, rep, "C05.R15", sorted(r for r in model.modules if r.startswith("lang/") and r.endswith("_parser.py")))
     from ..generic import check_accumulators
     check_accumulators(model, rep, "C05.R8", [SH, IH], C05_ADJUDICATED,
                        "declarations, visible scopes or import candidates gathered so far are incomplete, so some names stay unresolved or bind elsewhere", 5)
